@@ -1,5 +1,7 @@
 import Driver.Util
 import CtyModel.Refine
+import CtyModel.RefineIdeal
+import CtyModel.RefineWith
 open CtyModel
 open CtyModel.Refine
 
@@ -10,6 +12,11 @@ open CtyModel.Refine
   answers it (`textOracle` = `rawNumberEqual`)
 * `rfn.runx` the same with `partialOracle` (exact comparison, `unmodelled` where the answer could
   depend on the decimal text) — the instance of `ExactOracle` the theorems are tied through
+* `rfn.runi` the same with `D05.idealOracle` (exact comparison, always answering): sent by the harness only for
+  inputs whose numbers are all integers or infinities, where `C05.run_code_eq_exact` proves the three oracles agree
+* `rfn.with <value> ((<same> (<call>*))*)` → `v.RefineWith(refiners...)`: each refiner applies its calls and returns the
+  builder it was given (`same = 1`) or another one; `ok <value> <observers>` | `panic` | `unmodelled`
+* `rfn.nn <value>` → `v.RefineNotNull()`
 * `rfn.range <value>` → observers of `value.Range()` (top-level marks removed first)
 * `rfn.includes <range-of value> <arg>` → `t|f|u|panic|unmodelled`
 * `rfn.gamma <value> <conc>` → `0|1` (the specification γ)
@@ -83,6 +90,16 @@ def runWith (O : EqOracle) (v : Value) (cs : List RefineCall) : String :=
   | .err _ => "err"
   | .unmodelled => "unmodelled"
 
+def decRefiner : Sexp → Option D05.Refiner
+  | .list [s, .list cs] => do pure ⟨← cs.mapM decCall, ← Sexp.decBool s⟩
+  | _ => none
+
+def rfnValRes : Res Value → String
+  | .ok w => s!"ok {w.toSexp} {observers w}"
+  | .panic _ => "panic"
+  | .err _ => "err"
+  | .unmodelled => "unmodelled"
+
 def handleRefine : Handler := fun op args =>
   match op, args with
   | "rfn.run", [v, .list cs] => do
@@ -93,6 +110,17 @@ def handleRefine : Handler := fun op args =>
     let v ← Value.ofSexp v
     let cs ← cs.mapM decCall
     pure (runWith partialOracle v cs)
+  | "rfn.runi", [v, .list cs] => do
+    let v ← Value.ofSexp v
+    let cs ← cs.mapM decCall
+    pure (runWith D05.idealOracle v cs)
+  | "rfn.with", [v, .list rs] => do
+    let v ← Value.ofSexp v
+    let rs ← rs.mapM decRefiner
+    pure (rfnValRes (@D05.refineWith textOracle v rs))
+  | "rfn.nn", [v] => do
+    let v ← Value.ofSexp v
+    pure (rfnValRes (@D05.refineNotNull textOracle v))
   | "rfn.range", [v] => do
     let v ← Value.ofSexp v
     pure (observers v)
